@@ -66,7 +66,7 @@ def run_shard(exe, d, i, cases, tmo, tmo2):
     byid = {}
     extra = []
     for e in recs:
-        if "id" in e and e["e"] in ("Ret", "Hang", "Crash"):
+        if "id" in e and e["e"] in ("Ret", "Hang", "Crash", "Skipped"):
             byid.setdefault(e["id"], []).append(e)
         else:
             extra.append(e)
@@ -149,13 +149,14 @@ def run(tier):
     with cf.ThreadPoolExecutor(max_workers=min(nsh, 6)) as ex:
         vals = list(ex.map(lambda r: validate_trace("TraceFuncCall", "TraceFuncCall.cfg", r[0], cwd=GSL, xmx="3g", timeout=2400), runs))
     v = Verdict(PID)
-    states = trans = nbad = 0
+    states = trans = nbad = nskip = 0
     outcomes = {}
     for (tr, lines), (ok, res) in zip(runs, vals):
         done = printed_json(res, "DONE")
         if len(done) != 1 or done[0]["n"] != len(lines) or done[0]["open"]:
             raise Broken("TraceFuncCall did not consume %s\n%s" % (tr, res.out[-2500:]))
         states += res.distinct; trans += res.generated
+        nskip += done[0]["skipped"]
         for e in lines:
             if e["e"] == "Ret":
                 o = "Ret/" + e["err"]
@@ -189,6 +190,26 @@ def run(tier):
         byclause[key.split(":")[0]] = byclause.get(key.split(":")[0], 0) + 1
     log("[%s] rejected by clause: %s" % (PID.lower(), json.dumps(byclause, sort_keys=True)))
     rcode, nnew = v.finish()
+    # non-vacuity statistics: how often the antecedent of each clause occurred
+    met = {"nan_argument": 0, "nonint_at_integer_position": 0, "partial_wrt_integer_requested": 0,
+           "no_error_value_only": 0, "no_error_with_first_partials": 0, "no_error_with_second_partials": 0,
+           "integer_positions_constant": 0, "nonrandom": 0}
+    for (tr, lines) in runs:
+        cur = None
+        for e in lines:
+            if e["e"] == "Case":
+                cur = e
+                met["nan_argument"] += "NaN" in e["cls"]
+                met["nonint_at_integer_position"] += "nonint" in e["cls"]
+                met["partial_wrt_integer_requested"] += e["mode"] != "v" and bool(e["ip"]) and not e["digc"]
+                met["integer_positions_constant"] += e["digc"]
+                met["nonrandom"] += not e["rnd"]
+            elif e["e"] == "Ret" and cur is not None and e["err"] == "none" and e["fill"] == "val":
+                met[{"v": "no_error_value_only", "d": "no_error_with_first_partials", "h": "no_error_with_second_partials"}[cur["mode"]]] += 1
+    if rcode == 0 and not all(met.values()):
+        raise Broken("a clause was vacuous in this run: %s" % met)
+    if nskip and rcode == 0:
+        raise Broken("%d calls were skipped although nothing was rejected" % nskip)
     with open(os.path.join(outdir(PID), "trace-%s.ndjson" % tier), "w") as f:
         for tr, lines in runs:
             for e in lines[:4000]:
@@ -200,7 +221,7 @@ def run(tier):
         "samples": [{k: c[k] for k in ("fn", "ar", "ip", "cls", "mode", "digc", "args")} for c in (cases[0], cases[len(cases) // 3], cases[-1])] +
                    [json.dumps(e)[:300] for e in runs[0][1][:4]],
         "evaluations": len(cases), "functions": len(funcs), "functions_with_integer_arguments": nint,
-        "signatures": len(sigs), "prototype_unknown": unknown, "outcomes": outcomes, "tables": tables,
+        "signatures": len(sigs), "prototype_unknown": unknown, "outcomes": outcomes, "situations_met": met, "calls_skipped_after_hangs": nskip, "tables": tables,
         "exhaustive": False,
         "explanation": "all %d functions registered by the real amplgsl.cc through Addfunc (compiled against the funcadd.h shim and system libgsl); argument-class tuples x request modes enumerated by TLC per signature (GenFuncCall), %s; every call made three times in a forked child (derivs/hes pre-filled with NaN, then twice with a sentinel); each (case, outcome) pair validated by TLC against FuncCall.tla. Decided: Errmsg=NULL => no NaN in value/requested partials; NaN argument, non-integer at an integer position, partial w.r.t. an integer argument => error; determinism (non-random functions); the call returns. NOT decided: agreement of derivatives with numerical differentiation." %
                        (len(funcs), "all of them with two concretisation tables" if tier == "thorough" else "a seeded sample of up to %d per function" % per_fn),
